@@ -113,8 +113,30 @@ claim(
     "DESIGN.md §7 C17",
 )
 
+claim(
+    "C07",
+    "Lean 4 proof (memo-table invariant preserved by every builder step ⇒ memoised build = memo-free build, for every S-expression) + differential correspondence with circuitbuilder.build with and without the memoiser",
+    "Theorems C07_memo_transparent (∀ cfg e, build cfg e = buildNoMemo cfg e), C07_memo_sound, C07_context_free, C07_innermost_header / C07_innermost_param prove that the gate memoiser never changes what is built — so the built form of a statement depends only on its own text, the gate table and the bindings of the names occurring in it (including names inside array items), never on a textually identical statement elsewhere — and that inside a macro body an identifier is the parameter of that name if there is one, else the header binding. Counterexamples by `decide` document the three defects repaired on the way (old key ignoring names inside array items; numerals compared with ==; stale entries after a pulse import).",
+    COMMON_NOTE + "The builder model threads the memo table and gate context as explicit state; error classes only (messages are not compared).",
+    "DESIGN.md §7 C07",
+)
+claim(
+    "C14",
+    "Lean 4 proof (invariants over the builder's accumulated context: declarative RefsValid / NamesValid hold of every accepted circuit) + boundary-value correspondence + pipeline oracle over the stage at which a value becomes known",
+    "Theorems C14_sound(_build/_parser), C14_sound_all, C14_names_distinct, C14_known_when_known_*, C14_checked_literal_index, C14_precedence_injected / _later prove that every circuit the builder accepts has all literal indices within 0..size-1, all literal slices with non-zero step, non-negative start and every element inside the source, every indexed or mapped thing a register or parameter, pairwise distinct names, every gate statement bound to a native gate, an earlier macro or (only without a gate set) an anonymous definition, with arity and kinds fitting; and which positions are deferred because their value is a let. The deferred positions are checked when fill_in_let rebuilds (C05) and when expand_macros calls the definition (C04); the direct oracle harness/extra_c14.py drives the real pipeline with the offending value entering as literal, let, override, macro argument, let-sized or override-sized register and requires JaqalError, and the reference qubit for valid programs.",
+    COMMON_NOTE + "A literal index into a let-sized register is checked against the declared value (possible false rejection under an enlarging override; not a C14 violation).",
+    "DESIGN.md §7 C14",
+)
+claim(
+    "C20",
+    "Lean 4 proof (reflexivity, symmetry, per-field inversion lemmas, logical relation from equality to the meaning specification) + differential correspondence with the real == in both orders and single-token mutants",
+    "Theorems C20_refl, C20_symm (and C20_symm_value / _stmt unconditionally), C20_discriminates_* (one inversion lemma per field of every node kind: == True ⇒ the fields are equal by value), C20_sound (parser-like circuits that compare equal have identical let and register declarations and, for every environment, meanings equal up to numeric value), C20_ignored_fields_meaningless, and the generator lemmas C20_gen_total / _splice / _names. Counterexamples by `decide` document the repaired defects (a fundamental register equal to an alias of the same size in one direction only; Parameter == Constant).",
+    COMMON_NOTE + "C20_sound assumes both circuits list their macros in the same order (C20_sound_full without it is false for the model because macro denotation is order-sensitive; the builder always lists macros in definition order). NaN is outside the model.",
+    "DESIGN.md §7 C20",
+)
+
 ALL = [f"C{n:02d}" for n in range(1, 21)]
-READY = {"C02", "C03", "C04", "C08", "C09", "C11", "C12", "C13", "C15", "C17", "C18", "C19"}  # checks that are built, pass on the unchanged tree and are registered
+READY = {"C02", "C03", "C04", "C07", "C08", "C09", "C11", "C12", "C13", "C14", "C15", "C17", "C18", "C19", "C20"}  # checks that are built, pass on the unchanged tree and are registered
 
 
 def main():
